@@ -285,4 +285,12 @@ theorem frame_decode_canonical (raw : Bytes) (araw : AllBytes raw) (b : Block) (
       | rw [List.take_append_drop, List.take_append_drop]
       | (rw [e14, List.take_append_drop, List.take_append_drop])
 
+/-- **Frame decoding is injective on what it accepts**: two byte strings that both decode to the same block are the same byte string. -/
+theorem frame_decode_injective (r1 r2 : Bytes) (a1 : AllBytes r1) (a2 : AllBytes r2) (b : Block)
+    (h1 : Block.decode r1 = .ok b) (h2 : Block.decode r2 = .ok b) : r1 = r2 := by
+  have e1 := frame_decode_canonical r1 a1 b h1
+  have e2 := frame_decode_canonical r2 a2 b h2
+  rw [e1] at e2
+  injection e2
+
 end SecsModel.Props.C04
